@@ -21,6 +21,7 @@ inductive RdErr where
   | unexpectedEOF   -- io.ErrUnexpectedEOF
   | bad             -- malformed
   | tooLarge
+  | unmodelled      -- the code hands over to a library the model does not cover (mime/multipart pre-parse)
 deriving Repr, DecidableEq
 
 def endErr : End → RdErr
